@@ -217,6 +217,17 @@ def _t4(ctx):
         ctx.ok(R, fi, good[1].ast.test, "mismatch test guards a raise of EvaluationError")
     else:
         ctx.bad(R, fi, fi.node.body[0], "no `raise EvaluationError` under a `len(source) != expected_count` test: a mismatching expected_count is accepted")
+    # `expected_count: 0` is a count like any other: its presence is tested by identity (`is not None`), never by truth value
+    truthy = []
+    for t in [x for x in ast.walk(fi.node) if isinstance(x, (ast.If, ast.IfExp, ast.While, ast.Assert))]:
+        test = t.test
+        for sub in ast.walk(test):
+            operands = sub.values if isinstance(sub, ast.BoolOp) else ([sub.operand] if isinstance(sub, ast.UnaryOp) and isinstance(sub.op, ast.Not) else ([sub] if sub is test else []))
+            for o in operands:
+                if isinstance(o, (ast.Name, ast.Attribute)) and norm(o).split(".")[-1] == "expected_count":
+                    truthy.append(t)
+    ctx.check(not truthy, R, fi, truthy[0].test if truthy else fi.node.body[0], "expected_count is tested by its truth value: a count of 0 (a rename declared empty, e.g. `weight ... expected_count: 1 if len(All) == 3 else 0`) "
+              "is treated as 'no count given' and a non-empty result is accepted", "expected_count tested by identity (is not None)")
 
 
 def _t5(ctx):
@@ -264,6 +275,7 @@ def thorough(ctx):
 
 
 VARIANTS = [
+    {"kind": "F", "name": "zero-count-not-enforced", "rule": "C29-T4", "edits": [(REN, "            expected_count is not None\n            and isinstance(evaluated.source, InvertibleSet)", "            expected_count\n            and isinstance(evaluated.source, InvertibleSet)")]},
     {"kind": "F", "name": "revert-lookup-str-in-list", "rule": "C29-T1", "edits": [
         (REN, "        matches = [e for e in self.einsums if e.name == einsum_name]\n        if not matches:", "        matches = [e for e in self.einsums]\n        if einsum_name not in self.einsums:")]},
     {"kind": "F", "name": "revert-caller-default-literal", "rule": "C29-T2", "edits": [
